@@ -12,4 +12,4 @@ Separate Extraction
   Anim.AnimEncModel.sanitize_k Anim.AnimEncModel.quality_to_max_diff
   Anim.AnimEncModel.pixels_similar Anim.AnimEncModel.lossless_px_ok Anim.AnimEncModel.lossy_px_ok
   Anim.AnimEncModel.repaired Anim.AnimEncModel.add_frame_e Anim.AnimEncModel.max_frames
-  Anim.AnimEncModel.no_fail Anim.AnimEncLoops.find_changed_rect_loops.
+  Anim.AnimEncModel.no_fail Anim.AnimEncModel.step_op Anim.AnimEncLoops.find_changed_rect_loops.
